@@ -4,6 +4,10 @@ import GomlVerif.Driver.DecGo
 namespace Goml.Driver.GoCheckRun
 open Goml Goml.Go
 
+/-- `reprStr` of a long type wraps at 120 columns; the protocol is one answer per line -/
+def oneLine (s : String) : String :=
+  " ".intercalate ((s.splitOn "\n").map fun part => String.ofList (part.toList.dropWhile (· == ' ')))
+
 def runLine (l : String) : String :=
   let (id, rest) := splitTab l
   match Sexp.parse rest with
@@ -12,7 +16,7 @@ def runLine (l : String) : String :=
     | some F =>
       let errs := check F
       if errs.isEmpty then s!"{id}\tok\t"
-      else s!"{id}\terr\t" ++ " ;; ".intercalate (errs.map fun e => s!"{e.code}|{e.site}|{e.detail}")
+      else s!"{id}\terr\t" ++ " ;; ".intercalate (errs.map fun e => s!"{e.code}|{e.site}|{oneLine e.detail}")
     | none => s!"{id}\tdecode-error\t"
   | none => s!"{id}\tparse-error\t"
 
